@@ -27,12 +27,15 @@ CONSTANTS
     MaxCap,        \* max_capacity
     Retries,    \* config.CONNECT_FAILURE_RETRIES
     TaskIds,    \* 1..k : bound on concurrently live pool tasks
-    MaxConnId,  \* bound on connections ever opened   (state constraint)
-    FailBudget, \* bound on connect failures injected (state constraint)
-    MaxOps      \* bound on client acquire calls       (state constraint)
+    MaxConnId,  \* connection identities are 1..MaxConnId, recycled once closed
+    FailBudget, \* bound on connect failures injected
+    MaxOps,     \* bound on client acquire calls
+    TrackAct,   \* TRUE: keep the last action in hist.act (for replay); FALSE for liveness
+    FairPolicy  \* TRUE: _tick's Mode C policy gives quota >= 1 to a waiting block without connections
 
 NoDB == "-"
 NoConn == 0
+ConnIds == 1..MaxConnId
 
 VARIABLES
     p,     \* the pool's bookkeeping + asyncio tasks + ready queue
@@ -219,6 +222,15 @@ MaybeRebalance(q, rec) ==
     IF q.starving THEN q
     ELSE SortOverq(RebalanceLoop([q EXCEPT !.overq = <<>>], q.ord, rec))
 
+(* Pool._capacity_freed : a slot became available other than through        *)
+(* release() - hand it to the blocks that were only queueing for one         *)
+RECURSIVE CapacityFreed(_)
+CapacityFreed(q) ==
+    IF q.cur < MaxCap THEN
+        LET f == FindMostStarving(q) IN
+        IF f[2] = NoDB THEN f[3] ELSE CapacityFreed(ScheduleNewConn(f[3], f[2]))
+    ELSE q
+
 -----------------------------------------------------------------------------
 (* ---- client side: Block.try_acquire / Pool.acquire ----------------------*)
 
@@ -327,12 +339,13 @@ ConnFinish(q, i, d) ==
     ELSE
         LET q1 == [q EXCEPT !.cur = @ - 1, !.blk[d].fails = @ + 1]
             q2 == IF q1.blk[d].fails > Retries THEN
-                      \* Block.abort_waiters
+                      \* Block.abort_waiters, then Pool._capacity_freed
+                      CapacityFreed(
                       [q1 EXCEPT !.blk[d].waitq = <<>>,
                                  !.pc = [c \in Clients |->
                                            IF InSeq(q1.blk[d].waitq, c) THEN "aborted" ELSE q1.pc[c]],
                                  !.ready = @ \o [k \in 1..Len(q1.blk[d].waitq) |->
-                                                    <<"C", q1.blk[d].waitq[k]>>]]
+                                                    <<"C", q1.blk[d].waitq[k]>>]])
                   ELSE ScheduleNewConn(q1, d)
         IN EndTask([q2 EXCEPT !.blk[d].pending = @ - 1], i)
 
@@ -343,7 +356,7 @@ DiscStart(q, i) ==
     IN [q0 EXCEPT !.blk[t.db].conns = @ \ {t.conn},
                   !.tasks[i].st = "dwait", !.dq = Append(@, i)]
 
-DiscFinish(q, i) == EndTask([q EXCEPT !.cur = @ - 1], i)
+DiscFinish(q, i) == EndTask(CapacityFreed([q EXCEPT !.cur = @ - 1]), i)
 
 (* _transfer *)
 XferStart(q, i) == [q EXCEPT !.tasks[i].st = "dwait", !.dq = Append(@, i)]
@@ -453,6 +466,8 @@ TickChoices(q) ==
           /\ (need_hi(ch.drop) < MaxCap => ~ch.starving)
           /\ SumQuota(ch.quota, DBs) >= 1
           /\ SumQuota(ch.quota, DBs) <= MaxCap
+          /\ (FairPolicy => \A d \in live(ch.drop) :
+                  (q.blk[d].nwait > 0 /\ CountConns(q.blk[d]) = 0) => ch.quota[d] >= 1)
           /\ \A d \in DBs : d \notin live(ch.drop) => ch.quota[d] = 0}
 
 (* ---- _run_gc ; k[d] = how many connections at the bottom of d's stack are old *)
@@ -482,17 +497,21 @@ Init ==
             cq |-> <<>>, dq |-> <<>>,
             pc |-> [c \in Clients |-> "idle"], cdb |-> [c \in Clients |-> NoDB],
             hold |-> [c \in Clients |-> NoConn], err |-> ""]
-    /\ gt = [open |-> {}, closing |-> {}, broken |-> {}, dbof |-> <<>>,
+    /\ gt = [open |-> {}, closing |-> {}, broken |-> {},
+             dbof |-> [i \in ConnIds |-> NoDB],
              lent |-> [c \in Clients |-> NoConn]]
-    /\ hist = [nid |-> 0, nfail |-> 0, nops |-> 0, act |-> <<"Init">>]
+    /\ hist = [nfail |-> 0, nops |-> 0, act |-> <<"Init">>]
 
 RecSet == [DBs -> BOOLEAN]
 
 (* a client calls pool.acquire(db): the call is a new asyncio task *)
+Act(a) == IF TrackAct THEN a ELSE <<>>
+
 Acquire(c, d) ==
     /\ p.pc[c] \in {"idle", "failed"}
+    /\ hist.nops < MaxOps
     /\ p' = [p EXCEPT !.pc[c] = "start", !.cdb[c] = d, !.ready = Append(@, <<"C", c>>)]
-    /\ hist' = [hist EXCEPT !.nops = @ + 1, !.act = <<"Acquire", c, d>>]
+    /\ hist' = [hist EXCEPT !.nops = @ + 1, !.act = Act(<<"Acquire", c, d>>)]
     /\ UNCHANGED gt
 
 (* a holder calls pool.release(db, conn, discard=...) *)
@@ -501,25 +520,28 @@ Release(c, discard) ==
     /\ \E rec \in RecSet : p' = DoRelease(p, c, discard, rec)
     /\ gt' = [gt EXCEPT !.lent[c] = NoConn,
                         !.broken = IF discard THEN @ \cup {p.hold[c]} ELSE @]
-    /\ hist' = [hist EXCEPT !.act = <<"Release", c, discard>>]
+    /\ hist' = [hist EXCEPT !.act = Act(<<"Release", c, discard>>)]
 
 (* the i-th pending connect callback completes *)
 CompleteConnect(i, ok) ==
     /\ i \in 1..Len(p.cq)
     /\ LET t == p.cq[i]
            d == IF p.tasks[t].k = "xfer" THEN p.tasks[t].to ELSE p.tasks[t].db
-           id == hist.nid + 1
+           free == ConnIds \ gt.open
+           id == CHOOSE n \in free : \A m \in free : n <= m
        IN IF ok THEN
+              /\ free # {}
               /\ p' = [p EXCEPT !.cq = SeqWithout(@, t),
                                 !.tasks[t].res = "ok", !.tasks[t].rconn = id,
                                 !.ready = Append(@, <<"T", t>>)]
-              /\ gt' = [gt EXCEPT !.open = @ \cup {id}, !.dbof = Append(@, d)]
-              /\ hist' = [hist EXCEPT !.nid = id, !.act = <<"CompleteConnect", i, TRUE>>]
+              /\ gt' = [gt EXCEPT !.open = @ \cup {id}, !.dbof[id] = d]
+              /\ hist' = [hist EXCEPT !.act = Act(<<"CompleteConnect", i, TRUE>>)]
           ELSE
+              /\ hist.nfail < FailBudget
               /\ p' = [p EXCEPT !.cq = SeqWithout(@, t),
                                 !.tasks[t].res = "fail",
                                 !.ready = Append(@, <<"T", t>>)]
-              /\ hist' = [hist EXCEPT !.nfail = @ + 1, !.act = <<"CompleteConnect", i, FALSE>>]
+              /\ hist' = [hist EXCEPT !.nfail = @ + 1, !.act = Act(<<"CompleteConnect", i, FALSE>>)]
               /\ UNCHANGED gt
 
 (* the i-th pending disconnect callback completes *)
@@ -528,7 +550,7 @@ CompleteDisconnect(i) ==
     /\ LET t == p.dq[i]  c == p.tasks[t].conn IN
        /\ p' = [p EXCEPT !.dq = SeqWithout(@, t), !.ready = Append(@, <<"T", t>>)]
        /\ gt' = [gt EXCEPT !.open = @ \ {c}, !.closing = @ \ {c}, !.broken = @ \ {c}]
-    /\ hist' = [hist EXCEPT !.act = <<"CompleteDisconnect", i>>]
+    /\ hist' = [hist EXCEPT !.act = Act(<<"CompleteDisconnect", i>>)]
 
 (* the event loop runs the callback at the head of the ready queue *)
 RunOne ==
@@ -555,19 +577,19 @@ RunOne ==
        \/ /\ h[1] = "gc"
           /\ \E k \in [DBs -> 0..MaxCap] : p' = DoGC(q, k)
           /\ UNCHANGED gt
-    /\ hist' = [hist EXCEPT !.act = <<"RunOne">>]
+    /\ hist' = [hist EXCEPT !.act = Act(<<"RunOne">>)]
 
 (* timers become due: their callbacks join the ready queue *)
 FireTick ==
     /\ p.tick /\ ~InSeq(p.ready, <<"tick", 0>>)
     /\ p' = [p EXCEPT !.ready = Append(@, <<"tick", 0>>)]
-    /\ hist' = [hist EXCEPT !.act = <<"FireTick">>]
+    /\ hist' = [hist EXCEPT !.act = Act(<<"FireTick">>)]
     /\ UNCHANGED gt
 
 FireGC ==
     /\ p.gcT > Cardinality({i \in 1..Len(p.ready) : p.ready[i] = <<"gc", 0>>})
     /\ p' = [p EXCEPT !.ready = Append(@, <<"gc", 0>>)]
-    /\ hist' = [hist EXCEPT !.act = <<"FireGC">>]
+    /\ hist' = [hist EXCEPT !.act = Act(<<"FireGC">>)]
     /\ UNCHANGED gt
 
 Next ==
@@ -578,6 +600,20 @@ Next ==
     \/ RunOne \/ FireTick \/ FireGC
 
 Spec == Init /\ [][Next]_vars
+
+(* ---- C16: fairness = the loop keeps running, timers fire, connecting can   *)
+(* succeed, backends finish disconnecting, holders release after finite time *)
+Fairness ==
+    /\ WF_vars(RunOne)
+    /\ WF_vars(FireTick)
+    /\ WF_vars(FireGC)
+    /\ WF_vars(\E i \in 1..Len(p.cq) : CompleteConnect(i, TRUE))
+    /\ WF_vars(\E i \in 1..Len(p.dq) : CompleteDisconnect(i))
+    /\ \A c \in Clients : WF_vars(\E x \in BOOLEAN : Release(c, x))
+LiveSpec == Spec /\ Fairness
+
+Pending(c) == p.pc[c] \in {"start", "wait", "woken", "aborted"}
+Served == \A c \in Clients : Pending(c) ~> (p.pc[c] \in {"hold", "failed"})
 
 -----------------------------------------------------------------------------
 (* ---- C15 ----------------------------------------------------------------*)
@@ -626,14 +662,11 @@ TypeOK ==
 
 (* bounds for exhaustive checking *)
 Bound ==
-    /\ hist.nid <= MaxConnId
-    /\ hist.nfail <= FailBudget
-    /\ hist.nops <= MaxOps
     /\ p.gcT <= 2
     /\ p.err # "model: out of task ids"
 
 (* the last action is history only: hide it from the fingerprint *)
-View == <<p, gt, hist.nid, hist.nfail, hist.nops>>
+View == <<p, gt, hist.nfail, hist.nops>>
 
 (* TLC evaluates invariants also on states the constraint discards: guard them *)
 InModel == p.err # "model: out of task ids"
